@@ -61,12 +61,19 @@ fn random(a: &Args) {
     let mut samples = Vec::new();
     let funnel: usize = a.num("funnel", 0);
     let chain: usize = a.num("chain", 0);
-    for k in 0..count + funnel + chain {
+    let nb = if a.flag("boundary") { (0..).take_while(|i| shredh::prog::gen_boundary(*i, &mut StdRng::seed_from_u64(0)).is_some()).count() } else { 0 };
+    for k in 0..count + funnel + chain + nb {
         shredh::unwind::set(rng.gen_bool(a.num("punwind", 0.1)));
         shredh::record::set_early_pool(rng.gen_bool(0.3));
         shredh::build::set_noise(if rng.gen_bool(0.2) { 0.06 } else { 0.0 });
         if k >= count {
-            let prog = if k >= count + funnel { shredh::prog::gen_chain(&mut rng) } else { shredh::prog::gen_funnel(&mut rng) };
+            let prog = if k >= count + funnel + chain {
+                shredh::prog::gen_boundary(k - count - funnel - chain, &mut rng).unwrap()
+            } else if k >= count + funnel {
+                shredh::prog::gen_chain(&mut rng)
+            } else {
+                shredh::prog::gen_funnel(&mut rng)
+            };
             let mut res = Vec::new();
             prog.resources(&mut res);
             let r = record_registration(&prog, Variant::identity(&res), k + 1, 0, false);
@@ -88,8 +95,13 @@ fn random(a: &Args) {
         }
         let degenerate = rng.gen_bool(a.num("pdegenerate", 0.06));
         shredh::record::set_no_pool(rng.gen_bool(if degenerate { 0.5 } else { 0.02 }));
+        let special = rng.gen_range(0..100);
         let prog = if degenerate {
             shredh::prog::gen_degenerate(&mut rng)
+        } else if special < 4 {
+            shredh::prog::gen_wide_stage(&mut rng)
+        } else if special < 8 {
+            shredh::prog::gen_many_res(&mut rng)
         } else if rng.gen_bool(a.num("pfunnel", 0.12)) {
             shredh::prog::gen_funnel(&mut rng)
         } else {
@@ -111,7 +123,7 @@ fn random(a: &Args) {
     w.flush().unwrap();
     println!(
         "{}",
-        json!({"programs":count + funnel + chain,"variants":variants,"systems":nsys,"events":nev,"samples":samples})
+        json!({"programs":count + funnel + chain + nb,"variants":variants,"systems":nsys,"events":nev,"samples":samples})
     );
 }
 
